@@ -291,6 +291,36 @@ int main(int argc, char** argv) {
       if (!e && g_nwarn == w0) violation("silent-rejection", "short read rejected without a warning");
       count("fault_short_read");
     }
+    // ---------------- the operating system's files (default provider): a path that already holds a longer file is overwritten by a shorter
+    // model - the result must load and equal the model just saved (nothing of the old file may survive), and the other way round
+    {
+      static std::vector<char> prev_bytes;     // the previous case's saved model
+      static mjModel* prev_model = nullptr;
+      if (prev_model && mj_sizeModel(prev_model) != sz) {
+        char path[600]; snprintf(path, sizeof path, "%s/c31_reuse_%llu.mjb", g_args.faildir.empty() ? "/tmp" : g_args.faildir.c_str(), (unsigned long long)g_args.seed0);
+        const mjModel* order[2] = {mj_sizeModel(prev_model) > sz ? prev_model : m, mj_sizeModel(prev_model) > sz ? m : prev_model};   // longer first, then shorter over it
+        if (r.chance(0.3)) std::swap(order[0], order[1]);
+        for (int k = 0; k < 2; k++) {
+          uint64_t w0 = g_nwarn;
+          bool e = ND_GUARD({ mj_saveModel(order[k], path, nullptr, 0); });
+          if (e || g_nwarn != w0) { count("os_file_save_failed"); break; }     // (no writable directory: nothing to judge)
+          mjModel* ml = nullptr;
+          e = ND_GUARD({ ml = mj_loadModel(path, nullptr); });
+          if (e || !ml) violation("file-reuse", "a model saved over an existing %s file at the same path does not load: %s", k ? "(different-size)" : "(absent or older)", e ? g_lasterr : g_lastwarn);
+          std::vector<char> want((size_t)mj_sizeModel(order[k])), got((size_t)mj_sizeModel(ml));
+          mj_saveModel(order[k], nullptr, want.data(), (int)want.size()); mj_saveModel(ml, nullptr, got.data(), (int)got.size());
+          if (want != got) violation("file-reuse", "the model loaded from a re-used path differs from the model saved there");
+          mj_deleteModel(ml);
+          count("os_file_overwrites");
+        }
+        unlink(path);
+      }
+      // (the kept copy lives outside the tracking allocator: it must not look like a leak to the fault sweeps below)
+      { auto um = mju_user_malloc; auto uf = mju_user_free; mju_user_malloc = nullptr; mju_user_free = nullptr;
+        if (prev_model) mj_deleteModel(prev_model);
+        prev_model = mj_copyModel(nullptr, m);
+        mju_user_malloc = um; mju_user_free = uf; }
+    }
     // ---------------- crash points: every truncation length (or boundaries + sample)
     {
       std::vector<long> lens;
